@@ -15,6 +15,8 @@
 #include <fstream>
 
 #include "common/alloc_monitor.h"
+#include "draco/compression/point_cloud/algorithms/dynamic_integer_points_kd_tree_encoder.h"
+#include "draco/compression/point_cloud/algorithms/float_points_tree_encoder.h"
 #include "common/canon.h"
 #include "common/codec.h"
 #include "common/geo.h"
@@ -354,6 +356,56 @@ static int EmitSpecial(const std::string &dir) {
     if (!er.status.ok()) { fprintf(stderr, "special %d: %s\n", variant, er.status.error_msg()); return 1; }
     std::ofstream f(dir + "/texcoord_" + (variant ? "pos21_uv21" : "pos16_uv30") + ".drc", std::ios::binary);
     f.write(er.bytes.data(), er.bytes.size());
+  }
+  // Legacy kd-tree point cloud (bitstream 2.2, attribute method kKdTreeQuantizationEncoding): the only way into
+  // FloatPointsTreeDecoder. No current encoder writes this layout; the header is assembled by hand around a payload
+  // produced by the library's own FloatPointsTreeEncoder (20 points so that the stream stays in the systematic plan).
+  for (int level = 0; level <= 6; level += 3) {
+    std::vector<Point3f> pts;
+    Rng r(99, 7, level);
+    for (int i = 0; i < 20; ++i) pts.push_back(Point3f(static_cast<float>(r.uniform(-1, 1)), static_cast<float>(r.uniform(-1, 1)), static_cast<float>(r.uniform(-1, 1))));
+    FloatPointsTreeEncoder fe(KDTREE, 11, level);
+    if (!fe.EncodePointCloud(pts.begin(), pts.end())) { fprintf(stderr, "special legacy kd-tree: payload encoder failed\n"); return 1; }
+    std::string s("DRACO", 5);
+    auto put8 = [&](uint8_t v) { s.push_back(static_cast<char>(v)); };
+    auto put32 = [&](uint32_t v) { for (int i = 0; i < 4; ++i) s.push_back(static_cast<char>((v >> (8 * i)) & 0xff)); };
+    put8(2); put8(2); put8(POINT_CLOUD); put8(POINT_CLOUD_KD_TREE_ENCODING); put8(0); put8(0);
+    put32(20);                    // number of points
+    put8(1);                      // one attributes decoder
+    put8(1);                      // one attribute
+    put8(GeometryAttribute::POSITION); put8(DT_FLOAT32); put8(3); put8(0); put8(0);
+    put8(0 /* kKdTreeQuantizationEncoding */); put8(static_cast<uint8_t>(level)); put32(20);
+    s.append(fe.buffer()->data(), fe.buffer()->size());
+    vf::DecResult dr = vf::Decode(s.data(), s.size());
+    if (!dr.status.ok() || dr.pc->num_points() != 20) { fprintf(stderr, "special legacy kd-tree level %d does not decode: %s\n", level, dr.status.error_msg()); return 1; }
+    std::ofstream f(dir + "/legacy_kdtree_float_points_l" + std::to_string(level) + ".drc", std::ios::binary);
+    f.write(s.data(), s.size());
+    printf("legacy kd-tree float points level %d: %zu bytes\n", level, s.size());
+  }
+  // The same for the legacy *integer* kd-tree layout (attribute method kKdTreeIntegerEncoding, bitstream 2.2): uint32
+  // positions, payload from DynamicIntegerPointsKdTreeEncoder.
+  for (int level = 0; level <= 6; level += 6) {
+    std::vector<std::array<uint32_t, 3>> pts;
+    Rng r(99, 8, level);
+    for (int i = 0; i < 20; ++i) pts.push_back({static_cast<uint32_t>(r.below(1000)), static_cast<uint32_t>(r.below(1000)), static_cast<uint32_t>(r.below(1000))});
+    EncoderBuffer payload;
+    bool ok;
+    if (level == 0) { DynamicIntegerPointsKdTreeEncoder<0> e(3); ok = e.EncodePoints(pts.begin(), pts.end(), 10, &payload); }
+    else { DynamicIntegerPointsKdTreeEncoder<6> e(3); ok = e.EncodePoints(pts.begin(), pts.end(), 10, &payload); }
+    if (!ok) { fprintf(stderr, "special legacy integer kd-tree: payload encoder failed\n"); return 1; }
+    std::string s("DRACO", 5);
+    auto put8 = [&](uint8_t v) { s.push_back(static_cast<char>(v)); };
+    auto put32 = [&](uint32_t v) { for (int i = 0; i < 4; ++i) s.push_back(static_cast<char>((v >> (8 * i)) & 0xff)); };
+    put8(2); put8(2); put8(POINT_CLOUD); put8(POINT_CLOUD_KD_TREE_ENCODING); put8(0); put8(0);
+    put32(20); put8(1); put8(1);
+    put8(GeometryAttribute::POSITION); put8(DT_UINT32); put8(3); put8(0); put8(0);
+    put8(1 /* kKdTreeIntegerEncoding */); put8(static_cast<uint8_t>(level)); put32(20);
+    s.append(payload.data(), payload.size());
+    vf::DecResult dr = vf::Decode(s.data(), s.size());
+    if (!dr.status.ok() || dr.pc->num_points() != 20) { fprintf(stderr, "special legacy integer kd-tree level %d does not decode: %s\n", level, dr.status.error_msg()); return 1; }
+    std::ofstream f(dir + "/legacy_kdtree_integer_l" + std::to_string(level) + ".drc", std::ios::binary);
+    f.write(s.data(), s.size());
+    printf("legacy kd-tree integer level %d: %zu bytes\n", level, s.size());
   }
   // Streams for the prediction decoders no current encoder selects (deprecated methods 2 = multi-parallelogram and
   // 3 = tex-coords): a current stream whose prediction-method byte is rewritten (5 -> 3, 1 -> 2; the stored data has
